@@ -37,7 +37,7 @@ def gen(seed, run, sub="files", tier="quick"):
     serial_at = None
     if sub == "mixed":
         serial_at = r.randrange(len(writers) + 1)
-        writers.insert(serial_at, {"kind": "serial", "name": "ser"})
+        writers.insert(serial_at, {"kind": "serial", "name": "ser", "transport": r.choice(["serial", "serial", "socket"])})
     ascii_only = sub == "mixed"
     nops = r.choice([3, 6, 12, 25, 60]) if tier == "thorough" else r.choice([3, 6, 12, 25])
     ops = []
@@ -219,8 +219,12 @@ def execute(scn, guide=None, keep=False):
         elif kd == "custom":
             w.obj = Rec(spec["name"])
         elif kd == "serial":
-            from gscrib.writers.serial_writer import SerialWriter
-            w.obj = SerialWriter("/dev/sim", 115200)
+            if spec.get("transport") == "socket":
+                from gscrib.writers.socket_writer import SocketWriter
+                w.obj = SocketWriter("10.0.0.5", 8080)
+            else:
+                from gscrib.writers.serial_writer import SerialWriter
+                w.obj = SerialWriter("/dev/sim", 115200)
         return w
 
     def disk(w):
